@@ -31,7 +31,7 @@ def _factor_box(rng, n, ndim):
 
 def random_spec(rng, *, S=None, avg=None, smin=3, smax=40, amax=5, emax=5, gamma_choices=None):
     S = int(S if S is not None else rng.integers(smin, smax + 1))
-    A = int(rng.integers(2, amax + 1))
+    A = int(rng.integers(2, amax + 1)) if rng.random() > 0.06 else 1   # now and then a single action
     structure = str(rng.choice(STRUCTURES))
     E = 1 if structure == "determ" else int(rng.integers(2, emax + 1))
     sdim = int(rng.integers(1, 4))
